@@ -110,6 +110,10 @@ def toy_receive(cfg, seq0, kex, chunks):
     r._initial_kex_done = kex
     r._Packetizer__sequence_number_in = seq0
     install_in(r, cfg)
+    # outbound direction of the same object: a different framing mode (never in == out)
+    other = gen_cfg(__import__("random").Random(cfg["ckey"] * 1000 + cfg["ak"]),
+                    modes=tuple(m for m in (1, 2, 3) if m != cfg["mode"]))
+    install_out(r, other)
     got, fin = read_until_stop(r)
     return got, fin, read_after_failure(r, fin)
 
@@ -181,12 +185,23 @@ def real_record(rng, suite, zlib_on, nmsgs):
     return {"suite": suite, "zlib": zlib_on, "keys": keys, "seq0": seq0, "sent": payloads, "wires": wires}
 
 
+OTHER_KEYS = {}
+
+
 def real_receive(rec, chunks):
     from paramiko.packet import Packetizer
     r = Packetizer(FragSocket(chunks))
     r._initial_kex_done = True
     r._Packetizer__sequence_number_in = rec["seq0"]
     real_install(r, rec["suite"], rec["keys"], False, rec["zlib"])
+    # the receiver's OUTBOUND direction carries an independently chosen suite of another kind
+    kind = suite_kind(rec["suite"])
+    other = {"classic": ("aes128-ctr", "hmac-sha2-256-etm@openssh.com"), "etm": ("aes128-ctr", "hmac-sha1"),
+             "aead": ("aes256-cbc", "hmac-sha2-512-etm@openssh.com")}[kind]
+    if rec["keys"]["key"][0] % 2:
+        other = {"classic": ("aes128-gcm@openssh.com", None), "etm": ("aes256-gcm@openssh.com", None),
+                 "aead": ("3des-cbc", "hmac-md5")}[kind]
+    real_install(r, other, OTHER_KEYS.setdefault(other, real_keys(__import__("random").Random(7), other)), True, False)
     got, fin = read_until_stop(r, limit=len(rec["sent"]) + 4)
     return got, fin, read_after_failure(r, fin)
 
